@@ -94,10 +94,20 @@ def finish_cli(h, wait_s):
 
 
 def discharge(obligations, budget_s=20.0, portfolio=True, seeds=(0,)):
+  failures = 0
   for ob in obligations:
     if ob.status == 'unsat':
       continue
     results = {}
+    if failures >= 2 and portfolio:
+      # the function already has undischarged obligations: the remaining ones get one short attempt
+      st, dt, out, model = run_z3(ob, min(5.0, budget_s), seeds[0])
+      ob.results = {'z3-5.1': (st, dt, out)}
+      ob.model, ob.time = model, dt
+      ob.status = st if st in ('unsat', 'sat') else 'unknown'
+      ob.solver = 'z3-5.1' if st == 'unsat' else None
+      ob.output = 'z3-5.1: ' + out + ' (short attempt: earlier obligations of this function already failed)'
+      continue
     # staged portfolio: a quick z3 attempt; then cvc5 and the older z3 run as subprocesses
     # concurrently with z3 at the full budget
     # a few short attempts under different random seeds first (proof search is seed-sensitive)
@@ -153,3 +163,5 @@ def discharge(obligations, budget_s=20.0, portfolio=True, seeds=(0,)):
     else:
       ob.status = 'unknown'
     ob.output = '; '.join(f'{k}: {r[2]}' for k, r in results.items())
+    if ob.status != 'unsat':
+      failures += 1
